@@ -10,7 +10,9 @@
 (* 16 patterns of a pair occurs with overlapping, touching and disjoint    *)
 (* ranges), enums over several value sets with and without display names,  *)
 (* bool, pattern, any, objects differing in one feature (ID, ID            *)
-(* enforcement, one property more / fewer / optional / of another kind),   *)
+(* enforcement, one property more / fewer / optional / of another kind,    *)
+(* a property with a default - required or optional -, a disabled          *)
+(* property - required or optional),                                       *)
 (* one-ofs differing in one feature (discriminator kind or field, one      *)
 (* member more / fewer / different), scopes with references, and recursive *)
 (* and mutually recursive scopes (through a property, a list, a map, a     *)
@@ -63,7 +65,15 @@ Objects == { O0,
              Object("O", {Prop("p", IntU, FALSE), Prop("q", Str, FALSE)}, FALSE),      \* p optional
              Object("O", {Prop("p", Str, TRUE), Prop("q", Str, FALSE)}, FALSE),        \* p of another kind
              Object("O", {Prop("p", IntU, TRUE), Prop("q", Str, TRUE)}, FALSE),        \* q required
-             Object("O", {}, FALSE) }                                                  \* no properties
+             Object("O", {}, FALSE),                                                   \* no properties
+             \* required x default: (T, -) is O0, (F, -) is "p optional"; a producer lacking p (above) is
+             \* rejected by every consumer that requires p, with or without a default
+             Object("O", {PropX("p", IntU, TRUE, TRUE, FALSE), Prop("q", Str, FALSE)}, FALSE),   \* p required, with a default
+             Object("O", {PropX("p", IntU, FALSE, TRUE, FALSE), Prop("q", Str, FALSE)}, FALSE),  \* p optional, with a default
+             Object("O", {Prop("p", IntU, TRUE), PropX("q", Str, TRUE, TRUE, FALSE)}, FALSE),    \* q required, with a default
+             \* disabled properties: every such object is compatible with itself and its rebuilt copy
+             Object("O", P0 \cup {PropX("r", BoolS, FALSE, FALSE, TRUE)}, FALSE),                \* one optional disabled property more
+             Object("O", {PropX("p", IntU, TRUE, FALSE, TRUE), Prop("q", Str, FALSE)}, FALSE) }  \* p disabled
 
 \* one-ofs: X0 and its single-feature mutations
 MA == Object("MA", {Prop("x", IntU, TRUE)}, FALSE)
@@ -86,7 +96,10 @@ Scopes == { S0,
             Scope("O", {SR(Ref("C")), SC(IntU, TRUE)}),                                \* referenced object differs in a kind
             Scope("O", {SR(Ref("C")), SC(Str, FALSE)}),                                \* ... in "required"
             Scope("O", {SR(Ref("D")), Object("D", {Prop("x", Str, TRUE)}, FALSE)}),    \* ... in its ID
-            Scope("O", {SR(SC(Str, TRUE))}) }                                          \* the object inlined instead of referenced
+            Scope("O", {SR(SC(Str, TRUE))}),                                           \* the object inlined instead of referenced
+            Scope("O", {SR(Ref("C")), Object("C", {}, FALSE)}),                        \* referenced object lacks x
+            Scope("O", {SR(Ref("C")),                                                  \* x with a default, a disabled property more
+                        Object("C", {PropX("x", Str, TRUE, TRUE, FALSE), PropX("y", BoolS, FALSE, FALSE, TRUE)}, FALSE)}) }
 
 \* recursive scopes; "leaf" is the kind of the payload property inside the cycle
 RT(leaf, next) == Object("T", {Prop("v", leaf, TRUE), Prop("next", next, FALSE)}, FALSE)
@@ -175,7 +188,10 @@ RangesDeclarative ==
 \* a case the two sides of which are the same schema is never "open"
 ModesOK == (v.mode \in {"self", "ra"} => v.a = v.b) /\ (v.a = v.b => Expect(v.a, v.b) = "accept")
 
-ModelOK == WFOK /\ Consistent /\ Terminates /\ Reflexive /\ RangesDeclarative /\ ModesOK
+\* the rejection rules look at the structure only: defaults and disabled flags change no reason
+FlagsBlind == Reasons(v.a, v.b, {}, {}, {}) = Reasons(Plain(v.a), Plain(v.b), {}, {}, {})
+
+ModelOK == WFOK /\ Consistent /\ Terminates /\ Reflexive /\ RangesDeclarative /\ ModesOK /\ FlagsBlind
 
 Export == Emit([a |-> v.a, b |-> v.b, mode |-> v.mode, exp |-> Expect(v.a, v.b),
                 rules |-> Reasons(v.a, v.b, {}, {}, {})])
